@@ -20,6 +20,7 @@ import (
 	"github.com/internetarchive/Zeno/internal/pkg/log"
 	"github.com/internetarchive/Zeno/internal/pkg/postprocessor/domainscrawl"
 	"github.com/internetarchive/Zeno/internal/pkg/stats"
+	"github.com/internetarchive/Zeno/internal/pkg/verifhook"
 	"github.com/internetarchive/Zeno/pkg/models"
 )
 
@@ -181,6 +182,8 @@ func (a *archiver) worker(workerID string) {
 					archive(workerID, seed)
 				}
 
+				verifhook.At("archiver.forward", seed.GetID())
+
 				select {
 				case <-a.ctx.Done():
 					logger.Debug("aborting seed due to stop", "seed", seed.GetShortID(), "depth", seed.GetDepth(), "hops", seed.GetURL().GetHops())
@@ -265,6 +268,7 @@ func archive(workerID string, seed *models.Item) {
 					client = globalArchiver.Client
 				}
 
+				verifhook.At("archiver.beforeDo", req.URL.String())
 				resp, err = client.Do(req)
 				if err != nil {
 					if retry < config.Get().MaxRetry {
@@ -352,6 +356,7 @@ func archive(workerID string, seed *models.Item) {
 				feedbackTime := time.Now()
 				// Waiting for WARC writing to finish
 				<-feedbackChan
+				verifhook.At("archiver.afterFeedback", item.GetURL().String())
 				stats.MeanWaitOnFeedbackTimeAdd(time.Since(feedbackTime))
 			}
 
